@@ -658,6 +658,96 @@ pub fn exhaustive_item(root: u64, k: u64, sup: &SupDesc, acc: &mut Acc, fps: &Di
     }
 }
 
+/// A user-defined supply given only by a curve: cyclic 0/1 increments (zero at zero,
+/// non-decreasing, at most one per time unit, unbounded) — not necessarily the supply-bound
+/// function of any real server (it need not be super-additive).
+pub struct SynthSbf {
+    pub inc: Vec<bool>,
+}
+
+impl SynthSbf {
+    pub fn value(&self, delta: u64) -> u64 {
+        let n = self.inc.len() as u64;
+        let ones = self.inc.iter().filter(|b| **b).count() as u64;
+        let head: u64 = self.inc[..(delta % n) as usize].iter().filter(|b| **b).count() as u64;
+        (delta / n) * ones + head
+    }
+}
+
+impl SupplyBound for SynthSbf {
+    fn provided_service(&self, delta: Duration) -> Service {
+        s(self.value(du(delta)))
+    }
+}
+
+/// 4d. (ride-along, pure) the trait's default `service_time` must be the exact pseudo-inverse of
+/// ANY user-defined curve, including ones with a slope-one head followed by a long plateau.
+pub fn synthetic_item(root: u64, k: u64, acc: &mut Acc, fps: &Distinct) {
+    let mut rng = Rng::new(Rng::run_seed(root, "C09-synth", k));
+    let mut inc: Vec<bool> = Vec::new();
+    let segments = rng.range(1, 6);
+    for sgm in 0..segments {
+        let len = match rng.below(4) {
+            0 => rng.range(1, 3),
+            1 => rng.range(1, 12),
+            _ => rng.range(10, 120),
+        };
+        let up = if sgm == 0 { rng.chance(1, 2) } else { !*inc.last().unwrap() };
+        for _ in 0..len {
+            inc.push(up);
+        }
+    }
+    if !inc.iter().any(|b| *b) {
+        inc.push(true);
+    }
+    let sbf = SynthSbf { inc: inc.clone() };
+    let ones = inc.iter().filter(|b| **b).count() as u64;
+    acc.counters.inc("runs");
+    acc.counters.inc("runs_nontrivial");
+    acc.counters.inc("synthetic_curves");
+    let fpv = hash_str(&bits(&inc)) ^ 0x51;
+    fps.insert(fpv);
+    acc.digest_add(fpv);
+    for dem in 0..=(3 * ones + 2) {
+        let claimed = match guarded(|| du(sbf.service_time(s(dem)))) {
+            Some(v) => v,
+            None => {
+                acc.report(Report {
+                    order: (k, dem),
+                    key: "default service_time panicked".into(),
+                    summary: format!("user-defined curve {}: default service_time({}) panicked", bits(&inc), dem),
+                    replay: format!("rtasim-replay 1\nproperty C09\nengine supply\nkind synthetic\ncurve {}\nexpect demand={}\n", bits(&inc), dem),
+                });
+                return;
+            }
+        };
+        let mut t = 0u64;
+        while sbf.value(t) < dem {
+            t += 1;
+        }
+        if claimed != t {
+            acc.report(Report {
+                order: (k, dem),
+                key: if claimed < t {
+                    "default service_time unsound (user-defined curve)".into()
+                } else {
+                    "default service_time pessimistic (user-defined curve)".into()
+                },
+                summary: format!(
+                    "user-defined supply curve with increments {}: default service_time({}) = {} but the smallest t with provided_service(t) >= {} is {}",
+                    bits(&inc), dem, claimed, dem, t
+                ),
+                replay: format!(
+                    "rtasim-replay 1\nproperty C09\nengine supply\nkind synthetic\ncurve {}\nexpect demand={} claimed={} least_t={}\nnote seed={} curve={}\n",
+                    bits(&inc), dem, claimed, t, root, k
+                ),
+            });
+            return;
+        }
+        acc.counters.inc("probe.synthetic_inverse_exact");
+    }
+}
+
 pub fn all_configs(max_p: u64) -> Vec<SupDesc> {
     let mut v = vec![SupDesc::Dedicated];
     for p in 1..=max_p {
@@ -707,6 +797,7 @@ pub fn run_c09(opt: &Options) -> i32 {
         .filter(|c| *c != SupDesc::Dedicated)
         .collect();
     let n_exh = exh_configs.len() as u64;
+    let n_syn = tables / 4;
     let fin = |mut acc: Acc| -> i32 {
         let wall = t0.elapsed().as_secs_f64();
         let mut cov = Json::obj();
@@ -752,15 +843,17 @@ pub fn run_c09(opt: &Options) -> i32 {
         );
         out.exit_code
     };
-    run_parallel_then(n_cfg + tables + n_exh, opt.jobs, 60, |k, acc, note| {
+    run_parallel_then(n_cfg + tables + n_exh + n_syn, opt.jobs, 60, |k, acc, note| {
         if k < n_cfg {
             supply_item(&sh, k, acc, note)
         } else if k < n_cfg + tables {
             table_item(root, k - n_cfg, acc, &fps)
-        } else {
+        } else if k < n_cfg + tables + n_exh {
             let e = &exh_configs[(k - n_cfg - tables) as usize];
             note(&format!("C09 exhaustive {}", e));
             exhaustive_item(root, k, e, acc, &fps)
+        } else {
+            synthetic_item(root, k - n_cfg - tables - n_exh, acc, &fps)
         }
     }, &fin)
 }
@@ -783,6 +876,31 @@ pub fn replay_supply(path: &str, text: &str) -> i32 {
         println!("VIOLATION property=C09 replay={}", path);
         1
     };
+    if kind == "synthetic" {
+        let inc: Vec<bool> = get("curve ").unwrap_or_default().chars().map(|c| c == '1').collect();
+        if inc.is_empty() || !inc.iter().any(|b| *b) {
+            eprintln!("HARNESS-ERROR: bad curve");
+            return 2;
+        }
+        let sbf = SynthSbf { inc };
+        let dem = field("demand").unwrap_or(1);
+        let claimed = match guarded(|| du(sbf.service_time(s(dem)))) {
+            Some(v) => v,
+            None => return viol("default service_time panicked".into()),
+        };
+        let mut t = 0u64;
+        while sbf.value(t) < dem {
+            t += 1;
+        }
+        if claimed != t {
+            return viol(format!(
+                "user-defined curve: default service_time({}) = {} but the least t is {}",
+                dem, claimed, t
+            ));
+        }
+        println!("replay: no violation");
+        return 0;
+    }
     if kind == "table" {
         let table: Vec<bool> = get("table ").unwrap_or_default().chars().map(|c| c == '1').collect();
         if table.is_empty() || !table.iter().any(|b| *b) {
